@@ -7,6 +7,8 @@ use crate::util::*;
 use serde_json::json;
 
 pub struct C11 {
+    /// inflected / stemmable words: every re-casing of the query at every subset of positions
+    stem_sets: Vec<(L, String, Titles, Vec<String>)>,
     tier: Tier,
     /// (language, accent letter or plain letter)
     letters: Vec<(L, char)>,
@@ -105,7 +107,15 @@ impl C11 {
                 }
             }
         }
-        C11 { tier, letters, fw }
+        let mut stem_sets = Vec::new();
+        for l in LANGS {
+            let lex = lex_strings(l);
+            stem_sets.push((l, "lexicon titles<=2w x one-word queries (all prefixes), every re-casing".to_string(), Titles::Words { lex: lex.clone(), maxw: 2 }, word_queries(&lex, 1)));
+            let f6 = fam6(l);
+            let (t, q) = tier.pick((3, 4), (4, 5));
+            stem_sets.push((l, format!("F6 suffix-letter words: titles<={} x queries<={}, every re-casing", t, q), Titles::Chars { fam: f6.clone(), lo: 1, hi: t }, all_strings(&f6, 1, q)));
+        }
+        C11 { stem_sets, tier, letters, fw }
     }
     fn alphabet(&self, l: L, a: char) -> Vec<char> {
         let base = folded(l, a).and_then(|f| f.chars().next()).unwrap_or(if l.is_cyrillic() { 'б' } else { 'b' });
@@ -164,11 +174,42 @@ impl Prop for C11 {
             })
             .collect();
         d.push(Dom::new("accented-function-words", self.fw.len() as u64, 1));
+        for (l, name, t, _) in &self.stem_sets {
+            d.push(Dom::new(format!("{}/{}", l.tag(), name), t.len(), 20));
+        }
         d
     }
     fn run(&self, dom: usize, idx: u64, cx: &mut Cx) {
         if dom == self.letters.len() {
             return self.run_fw(idx, cx);
+        }
+        if dom > self.letters.len() {
+            let (l, _, titles, queries) = &self.stem_sets[dom - self.letters.len() - 1];
+            let l = *l;
+            let title = titles.get(idx);
+            let recs = vec![rec(10, &title, 5)];
+            let Ok(mut st) = cx.build(l, &recs, None, None) else { return };
+            cx.state();
+            for q in queries {
+                cx.eval();
+                let base = cx.search(&mut st, q);
+                if base.is_err() {
+                    match cx.build(l, &recs, None, None) {
+                        Ok(s) => st = s,
+                        Err(_) => return,
+                    }
+                }
+                for (v, what) in variants(l, q, &[Tf::Case, Tf::Fold, Tf::Decompose]) {
+                    let kind = if what.starts_with("Case") { "other-case-query" } else if what.starts_with("Fold") { "folded-query" } else { "decomposed-query" };
+                    if !self.compare(cx, l, kind, &what, &recs, q, &recs, &v, &base, &mut st) {
+                        match cx.build(l, &recs, None, None) {
+                            Ok(s) => st = s,
+                            Err(_) => return,
+                        }
+                    }
+                }
+            }
+            return;
         }
         let (l, a) = self.letters[dom];
         let fam = self.alphabet(l, a);
@@ -234,7 +275,7 @@ impl Prop for C11 {
         }
     }
     fn rule(&self) -> String {
-        "sweep: for each language and EACH letter of its accent inventory (frozen copy of the reduce / compose tables; upper- and lower-case rows separately) plus one plain letter: every title and every query up to the bound over {the letter, the first letter it folds to, a consonant, space}; every query is compared with all its variants - every non-empty subset of applicable positions re-cased (one-to-one case mappings only) / decomposed into base + combining mark / folded, and three separator prefixes; every title with all its decomposed variants. Second domain: every accented one-token function word of the language in three-record stores, same variants. Non-trivial = a comparison where the common result has at least one hit.".into()
+        "sweep: for each language and EACH letter of its accent inventory (frozen copy of the reduce / compose tables; upper- and lower-case rows separately) plus one plain letter: every title and every query up to the bound over {the letter, the first letter it folds to, a consonant, space}; every query is compared with all its variants - every non-empty subset of applicable positions re-cased (one-to-one case mappings only) / decomposed into base + combining mark / folded, and three separator prefixes; every title with all its decomposed variants. Third domain: stemmable words (the lexicon with its inflections; all words over the language's suffix letters), every query re-cased at every non-empty subset of positions. Second domain: every accented one-token function word of the language in three-record stores, same variants. Non-trivial = a comparison where the common result has at least one hit.".into()
     }
     fn assumptions(&self) -> Vec<String> {
         vec![
